@@ -249,6 +249,9 @@ class WorldScenario:
             run_op["nested"] = self._draw_nested(r)
         add("run", run_op)
         add("dry_run", {"op": "gwf", "argv": ["run", "--dry-run"] + self._patterns(w, r), "cwd": cwd})
+        if wt.get("status_concurrent", 0) > 0:
+            add("status_concurrent", {"op": "gwf", "argv": ["status"], "cwd": cwd,
+                                      "nested_run": ["run"] + self._patterns(w, r)})
         add("triple", {"op": "triple", "patterns": self._patterns(w, r), "cwd": cwd})
         add("gwf_cancel", {"op": "gwf", "argv": ["cancel", "-f"] + self._patterns(w, r), "cwd": cwd})
         if wt.get("faulted", 0) > 0:
@@ -584,11 +587,50 @@ class WorldScenario:
                 w.m_hash = {}
         return res
 
+    def _status_with_concurrent_run(self, w, op):
+        """A `gwf run` of a second terminal starts and finishes while `gwf status` is waiting for the scheduler's
+        answer.  The status command is a preview: what the run recorded must still be recorded when it ends."""
+        mid = {}
+
+        def hook(kind, detail=None):
+            query = kind.startswith("cmd:") or (kind == "sock:send" and "get_task_states" in (detail or ""))
+            if query and not mid and w.nest_depth == 0:
+                mid["started"] = True
+                r = w.nested_gwf(op["nested_run"], readonly=False)
+                w.update_hash_model(r, False)
+                mid["res"] = r
+                mid["snap"] = w.snapshot()
+
+        w.between_seams = hook
+        try:
+            res = w.gwf(["status"], op.get("cwd", "root"))
+        finally:
+            w.between_seams = None
+        self._exit_ok(w, res, ["status"])
+        if "snap" not in mid or w.pending_violation:
+            return res
+        w.probe("status_with_concurrent_run")
+        if mid["res"].accepted:
+            w.probe("status_with_concurrent_submitting_run")
+        after = w.snapshot()
+        for rel in sorted(set(mid["snap"]) | set(after)):
+            if rel.startswith(".gwf/") and rel.endswith(".json") and mid["snap"].get(rel) != after.get(rel):
+                a, b = mid["snap"].get(rel), after.get(rel)
+                if a is None and b is not None and b[0] == "json" and b[1] in ({}, None):
+                    continue
+                for p in ("C05", "C08"):
+                    w.flag(p, "preview_changed_state", f"gwf status, during which a `gwf {' '.join(op['nested_run'])}` of a second "
+                           f"terminal ran, changed {rel}: {a} -> {b}", file=rel.split("/")[-1], concurrent_run=True)
+        w.check_tracked_file()
+        return res
+
     def _gwf(self, w, op):
         argv = op["argv"]
         cmd = argv[0]
         if op.get("fault"):
             return self._gwf_faulted(w, op)
+        if cmd == "status" and len(argv) == 1 and op.get("nested_run"):
+            return self._status_with_concurrent_run(w, op)
         if cmd == "status" and len(argv) == 1:
             before = w.snapshot() if "C05" in w.props else None
             jb = len(w.cluster.journal) if w.cluster else 0
